@@ -306,6 +306,7 @@ type gen struct {
 	fresh  bool // never reuse a resource name (override files: a reused name would be merged, not imported)
 	shared []string
 	tags   map[string]bool
+	envRes bool // resources may take their value from the environment (services/secrets/configs `environment`)
 }
 
 func (g *gen) tag(t string) { g.tags[t] = true }
@@ -339,10 +340,59 @@ func (g *gen) resources(doc map[string]any, max int) {
 			if g.clean {
 				def = cleanDef(kind, def)
 			}
+			if g.envRes {
+				def = g.envSourced(kind, def)
+			}
 			sec[name] = def
 		}
 		doc[kind] = sec
 	}
+}
+
+// envSourced gives a definition a source in the environment.  The variables are the ones the generated `.env` /
+// `env_file`s define (V, W, X) and one nobody defines: every resolver that runs on an included model — services
+// `environment` (list and mapping form, bare names), secrets `environment`, configs `environment` — is fed by the
+// included project's own environment, not only the interpolation of `${V}` templates.
+func (g *gen) envSourced(kind string, def any) any {
+	vars := []string{"V", "W", "X", "NOPE"}
+	switch kind {
+	case "services":
+		m, ok := def.(map[string]any)
+		if !ok || g.r.Intn(3) != 0 {
+			return def
+		}
+		if g.r.Intn(2) == 0 {
+			l := []any{}
+			for _, v := range vars {
+				if g.r.Intn(2) == 0 {
+					l = append(l, v)
+				}
+			}
+			m["environment"] = append(l, "K="+c06lib.Tmpl(g.r, "k"))
+			g.tag("service-environment-list")
+		} else {
+			e := map[string]any{"K": c06lib.Tmpl(g.r, "k")}
+			for _, v := range vars {
+				if g.r.Intn(2) == 0 {
+					e[v] = nil
+				}
+			}
+			m["environment"] = e
+			g.tag("service-environment-map")
+		}
+		return m
+	case "secrets":
+		if g.r.Intn(2) == 0 {
+			g.tag("secret-environment")
+			return map[string]any{"environment": vars[g.r.Intn(len(vars))]}
+		}
+	case "configs":
+		if g.r.Intn(3) == 0 {
+			g.tag("config-environment")
+			return map[string]any{"environment": vars[g.r.Intn(len(vars))]}
+		}
+	}
+	return def
 }
 
 // cleanDef keeps a definition loadable as a whole project (files referenced by a service need not exist).
@@ -602,6 +652,12 @@ func runC06(ctx *core.Ctx) {
 	case "missingpd":
 		streamPasteMissingProjDir(ctx)
 		return
+	case "paste":
+		streamPaste(ctx)
+		return
+	case "symlinks":
+		streamPasteSymlinks(ctx)
+		return
 	case "envfile":
 		streamEnvFromFile(ctx)
 		streamCloneOptions(ctx)
@@ -621,6 +677,7 @@ func runC06(ctx *core.Ctx) {
 	streamPaste(ctx)
 	streamPasteOptions(ctx)
 	streamPasteMissingProjDir(ctx)
+	streamPasteSymlinks(ctx)
 	streamEnvFromFile(ctx)
 	streamCloneOptions(ctx)
 }
@@ -1005,7 +1062,7 @@ func pasteArgs(g *gen, main string, entries []c06lib.Entry, env map[string]strin
 }
 
 func newGen(ctx *core.Ctx, clean bool) *gen {
-	return &gen{r: ctx.Rng, s: c06lib.NewScen(), names: map[string]int{}, tags: map[string]bool{}, clean: clean}
+	return &gen{r: ctx.Rng, s: c06lib.NewScen(), names: map[string]int{}, tags: map[string]bool{}, clean: clean, envRes: clean}
 }
 
 // diffPair returns two definitions of one resource that differ whatever the environment and the directories are.
@@ -1063,6 +1120,9 @@ func streamPaste(ctx *core.Ctx) {
 		if g.tags["diamond"] {
 			class = "diamond"
 		}
+		if g.tags["config-environment"] {
+			class = "config-environment" // open finding (findings/C06.txt): an included model leaves its configs unresolved
+		}
 		ctx.Add("c06.paste", pasteArgs(g, main, entries, c06Envs[ctx.Rng.Intn(len(c06Envs))], "paste", class))
 	}
 
@@ -1093,6 +1153,75 @@ func streamPaste(ctx *core.Ctx) {
 		g.s.AddYAML("compose.yaml", 0, map[string]any{"include": []any{entry}, "services": map[string]any{"a": svc("a-${V:-unset}")}})
 		ctx.Count("paste:env-precedence")
 		ctx.Add("c06.paste", pasteArgs(g, "compose.yaml", []c06lib.Entry{ent}, env, "paste", "env-precedence"))
+	}
+	// 2b. the same sixteen environments feeding every resolver that runs on an included model, one resource each:
+	//     services `environment` (list / mapping form), secrets `environment`, configs `environment`; the main file
+	//     uses the same variables, which the included project's files must not define for it.  Also nested once.
+	for mask := 0; mask < 16; mask++ {
+		for form := 0; form < 4; form++ {
+			for nest := 0; nest < 2; nest++ {
+				g := newGen(ctx, true)
+				env := map[string]string{}
+				if mask&1 != 0 {
+					env["V"] = "parent"
+				}
+				ent := c06lib.Entry{Paths: []string{"sub/inc.yaml"}, ProjDir: "sub"}
+				entry := map[string]any{"path": "sub/inc.yaml"}
+				if mask&2 != 0 {
+					g.s.AddEnv("sub/.env", [][]string{{"V", "dotenv"}, {"W", "w-${V}"}})
+				}
+				if mask&4 != 0 {
+					g.s.AddEnv("my.env", [][]string{{"V", "envfile"}, {"W", "w2-${V}"}})
+					entry["env_file"] = "my.env"
+					ent.EnvFiles = []string{"my.env"}
+				}
+				if mask&8 != 0 {
+					g.s.AddDir("pd")
+					g.s.AddEnv("pd/.env", [][]string{{"V", "pd-dotenv"}})
+					entry["project_directory"] = "pd"
+					ent.ProjDir = "pd"
+				}
+				inc := map[string]any{"services": map[string]any{"b": svc("b")}}
+				own := map[string]any{"services": map[string]any{"a": svc("a")}}
+				class := ""
+				switch form {
+				case 0:
+					inc["services"].(map[string]any)["b"].(map[string]any)["environment"] = []any{"V", "W", "K=k"}
+					own["services"].(map[string]any)["a"].(map[string]any)["environment"] = []any{"V", "W"}
+					class = "env-service-list"
+				case 1:
+					inc["services"].(map[string]any)["b"].(map[string]any)["environment"] = map[string]any{"V": nil, "W": nil, "K": "k"}
+					own["services"].(map[string]any)["a"].(map[string]any)["environment"] = map[string]any{"W": nil}
+					class = "env-service-map"
+				case 2:
+					inc["secrets"] = map[string]any{"sv": map[string]any{"environment": "V"}, "sw": map[string]any{"environment": "W"}}
+					own["secrets"] = map[string]any{"mw": map[string]any{"environment": "W"}}
+					class = "env-secret"
+				case 3:
+					inc["configs"] = map[string]any{"cv": map[string]any{"environment": "V"}, "cw": map[string]any{"environment": "W"}}
+					own["configs"] = map[string]any{"mw": map[string]any{"environment": "W"}}
+					class = "config-environment"
+				}
+				if nest == 0 {
+					g.s.AddYAML("sub/inc.yaml", mask%2, inc)
+					own["include"] = []any{entry}
+				} else {
+					// the entry sits in an included file: parent -> mid (no environment of its own) -> sub/inc.yaml
+					mid := map[string]any{"include": []any{entry}, "services": map[string]any{"mid": svc("mid")}}
+					g.s.AddYAML("sub/inc.yaml", mask%2, inc)
+					g.s.AddYAML("mid.yaml", 0, mid)
+					own["include"] = []any{"mid.yaml"}
+					ent = c06lib.Entry{Paths: []string{"mid.yaml"}, ProjDir: ""}
+					if form != 3 {
+						class += "-nested"
+					}
+					ctx.Count("paste:env-nested")
+				}
+				g.s.AddYAML("compose.yaml", 0, own)
+				ctx.Count("paste:" + class)
+				ctx.Add("c06.paste", pasteArgs(g, "compose.yaml", []c06lib.Entry{ent}, env, "paste", class))
+			}
+		}
 	}
 
 	// 3. conflicting and identical redefinitions
@@ -1369,7 +1498,11 @@ func streamPasteOptions(ctx *core.Ctx) {
 		o := pasteOptsOf(ctx.Rng.Intn(256))
 		ctx.Count("paste:options-partition")
 		ctx.Count("paste-options:" + o.Name())
-		a := pasteArgs(g, "compose.yaml", entries, c06Envs[ctx.Rng.Intn(len(c06Envs))], "paste", "options-partition")
+		class := "options-partition"
+		if g.tags["config-environment"] {
+			class = "config-environment"
+		}
+		a := pasteArgs(g, "compose.yaml", entries, c06Envs[ctx.Rng.Intn(len(c06Envs))], "paste", class)
 		a.Opts = o
 		ctx.Add("c06.paste", a)
 	}
@@ -1390,6 +1523,82 @@ func streamPasteMissingProjDir(ctx *core.Ctx) {
 		g.s.AddYAML("compose.yaml", 0, map[string]any{"include": []any{map[string]any{"path": "sub/inc.yaml", "project_directory": pd}}, "services": map[string]any{"a": svc("a")}})
 		ctx.Count("paste:missing-project_directory")
 		ctx.Add("c06.paste", pasteArgs(g, "compose.yaml", []c06lib.Entry{{Paths: []string{"sub/inc.yaml"}, ProjDir: pd}}, nil, "paste", "missing-project_directory"))
+	}
+}
+
+// streamPasteSymlinks (stream 8): directories reached through symbolic links.  `os.Stat` follows links: a
+// `project_directory` that is a link to a directory *is* the included project directory (its `.env` is read through the
+// link, the included model's relative paths are anchored on the link's name, as in the pasted single file); likewise an
+// included file reached through a linked directory, and an `env_file` that is a link to a regular file.
+func streamPasteSymlinks(ctx *core.Ctx) {
+	incDoc := func() map[string]any {
+		return map[string]any{
+			"services": map[string]any{"b": map[string]any{"image": "b-${V:-unset}", "build": map[string]any{"context": "./ctx"},
+				"volumes": []any{map[string]any{"type": "bind", "source": "./data", "target": "/t"}}, "environment": []any{"V"}}},
+			"secrets": map[string]any{"cert": map[string]any{"file": "./cert.pem"}, "tok": map[string]any{"environment": "V"}},
+			"configs": map[string]any{"cfg": map[string]any{"file": "cfg.txt"}},
+		}
+	}
+	targets := []struct{ link, target, real string }{
+		{"current", "releases/v2", "releases/v2"},
+		{"current", c06lib.Root + "/releases/v2", "releases/v2"},
+		{"links/cur", "../releases/v2", "releases/v2"},
+		{"current", "hop", "releases/v2"}, // a link to a link
+	}
+	for ti, t := range targets {
+		for variant := 0; variant < 6; variant++ {
+			for dotenv := 0; dotenv < 2; dotenv++ {
+				g := newGen(ctx, true)
+				links := map[string]string{t.link: t.target}
+				if t.target == "hop" {
+					links["hop"] = "releases/v2"
+				}
+				g.s.AddDir(t.real)
+				if dotenv == 1 {
+					g.s.AddEnv(t.real+"/.env", [][]string{{"V", "from-linked-dir"}})
+				}
+				entry := map[string]any{}
+				var ent c06lib.Entry
+				class := ""
+				switch variant {
+				case 0, 1, 2: // project_directory is the link (relative, ./relative, absolute)
+					g.s.AddYAML("shared/inc.yaml", variant%2, incDoc())
+					entry["path"] = "shared/inc.yaml"
+					entry["project_directory"] = []string{t.link, "./" + t.link, c06lib.Root + "/" + t.link}[variant]
+					ent = c06lib.Entry{Paths: []string{"shared/inc.yaml"}, ProjDir: t.link}
+					class = "symlink-project_directory"
+				case 3: // the included file lives in the linked directory
+					g.s.AddYAML(t.real+"/inc.yaml", 0, incDoc())
+					entry["path"] = t.link + "/inc.yaml"
+					ent = c06lib.Entry{Paths: []string{t.link + "/inc.yaml"}, ProjDir: t.link}
+					class = "symlink-file-directory"
+				case 4: // a sub-directory of the link as project directory
+					g.s.AddDir(t.real + "/deep")
+					g.s.AddYAML("shared/inc.yaml", 1, incDoc())
+					entry["path"] = "shared/inc.yaml"
+					entry["project_directory"] = t.link + "/deep"
+					ent = c06lib.Entry{Paths: []string{"shared/inc.yaml"}, ProjDir: t.link + "/deep"}
+					if dotenv == 1 {
+						g.s.AddEnv(t.real+"/deep/.env", [][]string{{"V", "from-deep"}})
+					}
+					class = "symlink-project_directory-sub"
+				case 5: // env_file is a link to a regular file
+					g.s.AddYAML("shared/inc.yaml", 0, incDoc())
+					g.s.AddEnv(t.real+"/my.env", [][]string{{"V", "from-linked-file"}})
+					links["my.env"] = t.link + "/my.env"
+					entry["path"] = "shared/inc.yaml"
+					entry["env_file"] = "my.env"
+					ent = c06lib.Entry{Paths: []string{"shared/inc.yaml"}, ProjDir: "shared", EnvFiles: []string{"my.env"}}
+					class = "symlink-env_file"
+				}
+				g.s.AddYAML("compose.yaml", 0, map[string]any{"include": []any{entry}, "services": map[string]any{"a": svc("a-${V:-unset}")}})
+				ctx.Count("paste:" + class)
+				ctx.Count(fmt.Sprintf("paste-symlink-target:%d", ti))
+				a := pasteArgs(g, "compose.yaml", []c06lib.Entry{ent}, nil, "paste", class)
+				a.Links = links
+				ctx.Add("c06.paste", a)
+			}
+		}
 	}
 }
 
